@@ -133,22 +133,27 @@ def chart_attr_edit(i: int, f: str) -> bool:
     return _check_roundtrip(sf)
 
 
-OPS = 9
+OPS = 13
 
 
-def edit_step(op: int, k: int, v: str, pre_has: bool, pre_chart: bool) -> bool:
+def edit_step(op: int, k: int, v: str, pre_has: bool, pre_chart: bool, pre_ser: bool) -> bool:
     """
     pre: 0 <= op < OPS and 0 <= k < len(EDIT_KEYS) and len(v) <= L3
     post: _
     """
-    # arbitrary small pre-state, one edit, then the round trip must still hold
+    # arbitrary small pre-state (which may already have been serialized once: pre_ser), one edit, then the round trip must
+    # still hold for the object as it stands now
     sf = _empty()
     sf["TITLE"] = "a"
     if pre_has:
         sf[EDIT_KEYS[k]] = "old"
     sf["ARTIST"] = "b"
     if pre_chart:
-        sf.charts.append(SMChart.blank())
+        ch0 = SMChart.blank()
+        ch0.extradata = ["first", "se:cond"]
+        sf.charts.append(ch0)
+    if pre_ser:
+        record(sf)
     key = EDIT_KEYS[k]
     if op == 0:
         sf[key] = v
@@ -170,10 +175,22 @@ def edit_step(op: int, k: int, v: str, pre_has: bool, pre_chart: bool) -> bool:
     elif op == 7:
         sf.move_to_end("TITLE")
         sf.subtitle = v
-    else:
+    elif op == 8:
         if sf.charts:
             sf.charts[0].description = v.strip()
             sf.charts.reverse()
+    elif op == 9:
+        if sf.charts:
+            sf.charts[0].extradata[0] = v          # extra components edited in place
+    elif op == 10:
+        if sf.charts:
+            sf.charts[0].extradata.append(v)
+    elif op == 11:
+        if sf.charts:
+            del sf.charts[0].extradata[:]
+    else:
+        if sf.charts:
+            sf.charts[0]["METER"] = v.strip()      # chart field by key
     return _check_roundtrip(sf)
 
 
